@@ -8,6 +8,7 @@ From Verif.proofs Require Import AgreementLemmas AgreementVoteProofs AgreementTr
 Open Scope N_scope.
 
 Ltac wp_go := first [apply wp_panic | apply wp_bind].
+Ltac split_ifs := repeat match goal with |- context [if ?b then _ else _] => destruct b; simpl end.
 
 (* ---------- reading the staging value ---------- *)
 Definition staged_in (rn : roundNode) (p : N) (v : value) : Prop :=
@@ -139,4 +140,762 @@ Proof.
   eapply wp_mono.
   - apply (with_period_spec _ pm D r pl per 0 rn _ (fun _ _ => True)); auto. intros pn P; simpl; auto.
   - intros [rn1 u] (I1 & _); simpl; auto.
+Qed.
+
+(* ---------- computing through the garbage collection ---------- *)
+Lemma aget_filter_key_false : forall (V : Type) (g : N -> bool) k (l : list (N * V)),
+  g k = false -> aget N.eqb k (filter (fun kv => g (fst kv)) l) = None.
+Proof.
+  intros V g k l G. destruct (aget N.eqb k (filter (fun kv => g (fst kv)) l)) eqn:E; auto.
+  apply (aget_In N.eqb N.eqb_eq) in E. apply filter_In in E. destruct E as [_ E]; simpl in E. congruence.
+Qed.
+
+Definition keep_period (pl : player) (p : N) : bool := (p_per pl <=? add1 p) || (p <=? 1).
+Definition keep_round (pm : params) (pl : player) (r : N) : bool := p_rnd pl <=? w64 (r + pm_crlag pm).
+
+Lemma rn_update_get : forall pl p rn,
+  aget N.eqb p (rn_periods (rn_update pl p rn)) =
+  if keep_period pl p then Some (match aget N.eqb p (rn_periods rn) with Some pn => pn | None => pn_zero end) else None.
+Proof.
+  intros pl p rn. unfold rn_update, keep_period; simpl. unfold ahas.
+  destruct (aget N.eqb p (rn_periods rn)) as [pn|] eqn:A.
+  - destruct ((p_per pl <=? add1 p) || (p <=? 1)) eqn:G.
+    + rewrite (aget_filter_key N.eqb N.eqb_eq (fun k => (p_per pl <=? add1 k) || (k <=? 1))); auto.
+    + apply (aget_filter_key_false _ (fun k => (p_per pl <=? add1 k) || (k <=? 1))); auto.
+  - destruct ((p_per pl <=? add1 p) || (p <=? 1)) eqn:G.
+    + rewrite (aget_filter_key N.eqb N.eqb_eq (fun k => (p_per pl <=? add1 k) || (k <=? 1))); auto.
+      apply (aget_aset_same N.eqb N.eqb_eq).
+    + apply (aget_filter_key_false _ (fun k => (p_per pl <=? add1 k) || (k <=? 1))); auto.
+Qed.
+
+Lemma root_update_get : forall pm pl r rt,
+  aget N.eqb r (root_update pm pl r rt) =
+  if keep_round pm pl r then Some (match aget N.eqb r rt with Some rn => rn | None => rn_zero end) else None.
+Proof.
+  intros pm pl r rt. unfold root_update, keep_round. unfold ahas.
+  destruct (aget N.eqb r rt) as [rn|] eqn:A.
+  - destruct (p_rnd pl <=? w64 (r + pm_crlag pm)) eqn:G.
+    + rewrite (aget_filter_key N.eqb N.eqb_eq (fun k => p_rnd pl <=? w64 (k + pm_crlag pm))); auto.
+    + apply (aget_filter_key_false _ (fun k => p_rnd pl <=? w64 (k + pm_crlag pm))); auto.
+  - destruct (p_rnd pl <=? w64 (r + pm_crlag pm)) eqn:G.
+    + rewrite (aget_filter_key N.eqb N.eqb_eq (fun k => p_rnd pl <=? w64 (k + pm_crlag pm))); auto.
+      apply (aget_aset_same N.eqb N.eqb_eq).
+    + apply (aget_filter_key_false _ (fun k => p_rnd pl <=? w64 (k + pm_crlag pm))); auto.
+Qed.
+
+Lemma wp_and : forall A (x : res A) (P Q : A -> Prop), wp x P -> wp x Q -> wp x (fun a => P a /\ Q a).
+Proof. intros A [a| |] P Q H1 H2; simpl in *; auto. Qed.
+
+Definition staged_at (rt : router) (r p : N) (v : value) : Prop :=
+  exists rn, aget N.eqb r rt = Some rn /\ staged_in rn p v.
+
+Lemma d_staged_value : forall pm pl rt r p v,
+  staged_at rt r p v -> wp (d_staged pm pl rt r p) (fun '(_, (sv, _)) => sv = v).
+Proof.
+  intros pm pl rt r p v (rn0 & A0 & pn0 & A1 & S1). unfold d_staged, with_round.
+  rewrite root_update_get, A0. destruct (keep_round pm pl r); [|apply wp_panic].
+  apply wp_bind. unfold rn_read_staging. apply wp_bind. unfold with_period.
+  rewrite rn_update_get. rewrite rn_update_get, A1.
+  destruct (keep_period pl p); [|apply wp_panic]. simpl.
+  rewrite (proj1 (pn_update_pt 0 pn0)). auto.
+Qed.
+
+(* ---------- typed dispatches keep [RInv] ---------- *)
+Lemma d_staged_spec : forall pm D pl rt r p,
+  RInv pm D rt ->
+  wp (d_staged pm pl rt r p) (fun '(rt', (sv, c)) => RInv pm D rt' /\ (c = true -> v_rnd sv = r)).
+Proof.
+  intros pm D pl rt r p I. unfold d_staged.
+  eapply wp_mono.
+  - apply (with_round_spec _ pm D pl r p rt _ (fun _ '(sv, c) => c = true -> v_rnd sv = r)); auto.
+    intros rn IR. eapply wp_mono; [apply (rn_read_staging_spec pm D r); auto|].
+    intros [rn' [sv c]] (A & _ & _ & B & _); auto.
+  - intros [rt' [sv c]] (A & rn' & _ & B); auto.
+Qed.
+
+Lemma d_pinned_spec : forall pm D pl rt r,
+  RInv pm D rt ->
+  wp (d_pinned pm pl rt r) (fun '(rt', (pv, ok)) => RInv pm D rt').
+Proof.
+  intros pm D pl rt r I. unfold d_pinned. eapply wp_mono.
+  - apply (with_round_spec _ pm D pl r 0 rt _ (fun _ _ => True)); auto. intros rn IR; simpl; auto.
+  - intros [rt' [pv ok]] (A & _); auto.
+Qed.
+
+Lemma d_next_status_spec : forall pm D pl rt r p,
+  RInv pm D rt -> wp (d_next_status pm pl rt r p) (fun '(rt', _) => RInv pm D rt').
+Proof.
+  intros pm D pl rt r p I. unfold d_next_status. eapply wp_mono.
+  - apply (with_round_spec _ pm D pl r p rt _ (fun _ _ => True)); auto. intros rn IR.
+    eapply wp_mono; [apply (with_period_spec _ pm D r pl p 0 rn _ (fun _ _ => True)); auto|].
+    + intros pn P; simpl; auto.
+    + intros [rn' a] (A & _); auto.
+  - intros [rt' a] (A & _); auto.
+Qed.
+
+Lemma d_freshest_spec : forall pm D pl rt r,
+  RInv pm D rt -> wp (d_freshest pm pl rt r) (fun '(rt', fr) => RInv pm D rt' /\ thr_post pm D r fr).
+Proof.
+  intros pm D pl rt r I. unfold d_freshest. eapply wp_mono.
+  - apply (with_round_spec _ pm D pl r 0 rt _ (fun _ fr => thr_post pm D r fr)); auto.
+    intros rn IR; simpl. split; auto. apply (rni_f _ _ _ _ IR).
+  - intros [rt' fr] (A & rn' & _ & B); auto.
+Qed.
+
+Lemma d_dump_spec : forall pm D pl rt r p s,
+  RInv pm D rt -> wp (d_dump pm pl rt r p s) (fun '(rt', _) => RInv pm D rt').
+Proof.
+  intros pm D pl rt r p s I. unfold d_dump. eapply wp_mono.
+  - apply (with_round_spec _ pm D pl r p rt _ (fun _ _ => True)); auto. intros rn IR.
+    eapply wp_mono; [apply (with_period_spec _ pm D r pl p s rn _ (fun _ _ => True)); auto|].
+    + intros pn P; simpl; auto.
+    + intros [rn' a] (A & _); auto.
+  - intros [rt' a] (A & _); auto.
+Qed.
+
+Lemma pn_pt_op_inv : forall A D r p pn (f : ptracker -> res (ptracker * A)),
+  PNInv D r p pn -> wp (pn_pt_op f pn) (fun '(pn', _) => PNInv D r p pn' /\ True).
+Proof.
+  intros A D r p pn f P. unfold pn_pt_op. apply wp_bind.
+  destruct (f (pn_pt pn)) as [[t a]| |]; simpl; auto.
+Qed.
+
+Lemma d_freeze_spec : forall pm D pl rt r p,
+  RInv pm D rt -> wp (d_freeze pm pl rt r p) (fun '(rt', _) => RInv pm D rt').
+Proof.
+  intros pm D pl rt r p I. unfold d_freeze. eapply wp_mono.
+  - apply (with_round_spec _ pm D pl r p rt _ (fun _ _ => True)); auto. intros rn IR.
+    eapply wp_mono; [apply (with_period_spec _ pm D r pl p 0 rn _ (fun _ _ => True)); auto|].
+    + intros pn P. apply pn_pt_op_inv; auto.
+    + intros [rn' a] (A & _); auto.
+  - intros [rt' a] (A & _); auto.
+Qed.
+
+Lemma d_read_lowest_spec : forall pm D pl rt r,
+  RInv pm D rt -> wp (d_read_lowest pm pl rt r) (fun rt' => RInv pm D rt').
+Proof.
+  intros pm D pl rt r I. unfold d_read_lowest. apply wp_bind. eapply wp_mono.
+  - apply (with_round_spec _ pm D pl r 0 rt _ (fun _ _ => True)); auto. intros rn IR.
+    apply wp_bind. eapply wp_mono; [apply (rn_store_read_lowest_spec pm D r); auto|].
+    intros rn' A; simpl; auto.
+  - intros [rt' a] (A & _); simpl; auto.
+Qed.
+
+(* ---------- voteAggregator ---------- *)
+Lemma va_filter_vote_spec : forall pm D pl rt x,
+  RInv pm D rt -> wp (va_filter_vote pm pl rt x) (fun '(rt', _) => RInv pm D rt').
+Proof.
+  intros pm D pl rt x I. unfold va_filter_vote.
+  destruct (negb (vote_fresh (fresh_of pl) x)); simpl; auto.
+  apply wp_bind. eapply wp_mono.
+  - apply (with_round_spec _ pm D pl (vt_rnd x) (vt_per x) rt _ (fun _ _ => True)); auto. intros rn IR.
+    eapply wp_mono; [apply (with_period_spec _ pm D (vt_rnd x) pl (vt_per x) (vt_step x) rn _ (fun _ _ => True)); auto|].
+    + intros pn P; simpl; auto.
+    + intros [rn' a] (A & _); auto.
+  - intros [rt' a] (A & _); simpl; auto.
+Qed.
+
+Lemma va_deliver_spec : forall pm D pl rt x,
+  RInv pm D rt -> In x D ->
+  wp (va_deliver pm pl rt x) (fun '(rt', oth) => RInv pm D rt' /\ thr_post pm D (vt_rnd x) oth).
+Proof.
+  intros pm D pl rt x I XD. unfold va_deliver. eapply wp_mono.
+  - apply (with_round_spec _ pm D pl (vt_rnd x) (vt_per x) rt _ (fun _ oth => thr_post pm D (vt_rnd x) oth)); auto.
+    intros rn IR. eapply wp_mono; [apply (rn_vote_accepted_spec pm D (vt_rnd x)); auto|].
+    intros [rn' oth] (A & _ & B); auto.
+  - intros [rt' oth] (A & rn' & _ & B); auto.
+Qed.
+
+Definition gthr (pm : params) (D : list vote) (o : option thresh) : Prop :=
+  forall th, o = Some th -> good_thresh pm D th.
+
+Lemma va_deliver_all_spec : forall pm D pl vs rt acc,
+  RInv pm D rt -> (forall x, In x vs -> In x D) -> gthr pm D acc ->
+  wp (va_deliver_all pm pl rt vs acc) (fun '(rt', oth) => RInv pm D rt' /\ gthr pm D oth).
+Proof.
+  induction vs as [|x vs IH]; intros rt acc I S G; simpl; auto.
+  apply wp_bind. eapply wp_mono; [apply va_deliver_spec; [exact I | apply S; left; auto]|].
+  intros [rt1 oth] (A & B). apply IH; auto.
+  - intros y Hy; apply S; right; auto.
+  - destruct oth as [th|]; auto. intros th' E; inversion E; subst. apply (B th'); auto.
+Qed.
+
+Inductive va_good (pm : params) (D : list vote) : vares -> Prop :=
+| vg_none : va_good pm D VANone
+| vg_filtered : va_good pm D VAFiltered
+| vg_malformed : va_good pm D VAMalformed
+| vg_thr : forall th, good_thresh pm D th -> va_good pm D (VAThreshold th).
+
+(* votes that an event delivers as verified *)
+Definition delivered_by (m : mevent) : list vote :=
+  if me_verified m && negb (mm_err (me_meta m)) && negb (mm_cancelled (me_meta m)) then
+    match me_in m with
+    | InVote x => [x]
+    | InBundle b => ub_votes b ++ flat_map (fun e => [eqv_first e; eqv_second e]) (ub_eqs b)
+    | InPayload _ => []
+    end
+  else [].
+
+Lemma va_handle_spec : forall pm D pl rt m,
+  RInv pm D rt -> (forall x, In x (delivered_by m) -> In x D) ->
+  wp (va_handle pm pl rt m) (fun '(rt', out) => RInv pm D rt' /\ va_good pm D out).
+Proof.
+  intros pm D pl rt m I S. unfold va_handle.
+  pose proof (root_update_inv pm D pl 0 rt I) as I0.
+  unfold delivered_by in S.
+  destruct (me_in m) as [x|b|pv] eqn:EI; destruct (me_verified m) eqn:EV; simpl in S.
+  - destruct (mm_cancelled (me_meta m)) eqn:EC; [simpl; split; auto; constructor|].
+    destruct (mm_proto_err (me_meta m)); [simpl; split; auto; constructor|].
+    destruct (mm_err (me_meta m)) eqn:EE; [simpl; split; auto; constructor|]. simpl in S.
+    apply wp_bind. eapply wp_mono; [apply va_filter_vote_spec; eauto|].
+    intros [rt1 ok] A. destruct ok; simpl; [|split; auto; constructor].
+    apply wp_bind. eapply wp_mono; [apply va_deliver_spec; [exact A | apply S; left; auto]|].
+    intros [rt2 oth] (A2 & B2). destruct oth as [th|]; simpl; [|split; auto; constructor].
+    destruct (th_rnd th =? p_rnd pl); simpl; [split; auto; constructor; apply (B2 th); auto|].
+    destruct (th_rnd th =? add1 (p_rnd pl)); simpl; [split; auto; constructor|auto].
+  - destruct (mm_proto_err (me_meta m)); [simpl; split; auto; constructor|].
+    apply wp_bind. eapply wp_mono; [apply va_filter_vote_spec; eauto|].
+    intros [rt1 ok] A. simpl. split; auto. destruct ok; constructor.
+  - destruct (mm_cancelled (me_meta m)) eqn:EC; [simpl; split; auto; constructor|].
+    destruct (mm_proto_err (me_meta m)); [simpl; split; auto; constructor|].
+    destruct (mm_err (me_meta m)) eqn:EE; [simpl; split; auto; constructor|]. simpl in S.
+    destruct (negb (bundle_fresh (fresh_of pl) b)); [simpl; split; auto; constructor|].
+    apply wp_bind. eapply wp_mono; [apply va_deliver_all_spec; [exact I0 | exact S | intros th E; discriminate]|].
+    intros [rt1 oth] (A & B). destruct oth as [th|]; simpl; split; auto; constructor. apply B; auto.
+  - simpl. split; auto. destruct (bundle_fresh (fresh_of pl) b); constructor.
+  - apply wp_panic.
+  - apply wp_panic.
+Qed.
+
+(* ---------- proposalManager ---------- *)
+Lemma pm_check_dup_spec : forall pm D pl rt x,
+  RInv pm D rt -> wp (pm_check_dup pm pl rt x) (fun '(rt', _) => RInv pm D rt').
+Proof.
+  intros pm D pl rt x I. unfold pm_check_dup. eapply wp_mono.
+  - apply (with_round_spec _ pm D pl (vt_rnd x) (vt_per x) rt _ (fun _ _ => True)); auto. intros rn IR.
+    eapply wp_mono; [apply (with_period_spec _ pm D (vt_rnd x) pl (vt_per x) 0 rn _ (fun _ _ => True)); auto|].
+    + intros pn P; simpl; auto.
+    + intros [rn' a] (A & _); auto.
+  - intros [rt' a] (A & _); auto.
+Qed.
+
+Lemma pm_filter_vote_spec : forall pm D pl rt x,
+  RInv pm D rt -> wp (pm_filter_vote pm pl rt x) (fun '(rt', _) => RInv pm D rt').
+Proof.
+  intros pm D pl rt x I. unfold pm_filter_vote.
+  destruct (negb (proposal_fresh (fresh_of pl) x)).
+  - destruct (useful_for_cred_history pm (p_rnd pl) x); simpl; auto.
+    apply wp_bind. eapply wp_mono; [apply pm_check_dup_spec; eauto|]. intros [rt1 d] A; simpl; auto.
+  - apply wp_bind. eapply wp_mono; [apply pm_check_dup_spec; eauto|]. intros [rt1 d] A; simpl; auto.
+Qed.
+
+Lemma pm_new_period_spec : forall pm D pl rt th,
+  RInv pm D rt -> wp (pm_new_period pm pl rt th) (fun rt' => RInv pm D rt').
+Proof.
+  intros pm D pl rt th I. unfold pm_new_period. apply wp_bind. eapply wp_mono.
+  - apply (with_round_spec _ pm D pl (th_rnd th) 0 rt _ (fun _ _ => True)); auto. intros rn IR.
+    apply wp_bind. eapply wp_mono; [apply (rn_store_new_period_spec pm D (th_rnd th)); auto|].
+    intros rn' A; simpl; auto.
+  - intros [rt' a] (A & _); simpl; auto.
+Qed.
+
+Lemma pm_threshold_spec : forall pm D pl rt r0 th,
+  RInv pm D rt ->
+  wp (pm_threshold pm pl rt r0 th)
+     (fun '(rt', _) => RInv pm D rt' /\
+        (match th_t th with TNext => True | _ => staged_at rt' (th_rnd th) (th_per th) (th_val th) end)).
+Proof.
+  intros pm D pl rt r0 th I. unfold pm_threshold.
+  pose proof (root_update_inv pm D pl r0 rt I) as I0.
+  apply wp_bind. destruct (pm_pre_threshold pl th); simpl; auto.
+  assert (SC : forall rt1, RInv pm D rt1 ->
+            wp (do r <- with_round pm pl (th_rnd th) (th_per th) rt1 (fun rn => rn_store_threshold pl rn th);
+                (let '(rt2, out) := r in Ok (rt2, Some out)))
+               (fun '(rt', _) => RInv pm D rt' /\ staged_at rt' (th_rnd th) (th_per th) (th_val th))).
+  { intros rt1 I1. apply wp_bind. eapply wp_mono.
+    - apply (with_round_spec _ pm D pl (th_rnd th) (th_per th) rt1 _
+               (fun rn' _ => staged_in rn' (th_per th) (th_val th))); auto.
+      intros rn IR. eapply wp_mono; [apply (rn_store_threshold_spec pm D (th_rnd th)); auto|].
+      intros [rn' out] (A & _ & B); auto.
+    - intros [rt2 out] (A & rn' & G & B); simpl. split; auto. exists rn'; auto. }
+  destruct (th_t th) eqn:ET.
+  - apply wp_bind. destruct (p_per pl <? th_per th).
+    + eapply wp_mono; [apply pm_new_period_spec; exact I0|]. intros rt1 A. apply SC; exact A.
+    + simpl. apply SC; exact I0.
+  - apply wp_bind. destruct (p_per pl <? th_per th).
+    + eapply wp_mono; [apply pm_new_period_spec; exact I0|]. intros rt1 A. apply SC; exact A.
+    + simpl. apply SC; exact I0.
+  - apply wp_bind. eapply wp_mono; [apply pm_new_period_spec; exact I0|]. intros rt1 A; simpl; auto.
+Qed.
+
+Lemma pm_new_round_spec : forall pm D pl rt target,
+  RInv pm D rt -> wp (pm_new_round pm pl rt target) (fun '(rt', _) => RInv pm D rt').
+Proof.
+  intros pm D pl rt target I. unfold pm_new_round.
+  pose proof (root_update_inv pm D pl target rt I) as I0.
+  eapply wp_mono.
+  - apply (with_round_spec _ pm D pl target 0 _ _ (fun _ _ => True)); eauto. intros rn IR.
+    apply wp_bind. destruct (rn_store_new_round pl rn); simpl; auto.
+  - intros [rt' a] (A & _); auto.
+Qed.
+
+Lemma pm_vote_spec : forall pm D pl rt m x,
+  RInv pm D rt -> wp (pm_vote pm pl rt m x) (fun '(rt', _) => RInv pm D rt').
+Proof.
+  intros pm D pl rt m x I. unfold pm_vote.
+  pose proof (root_update_inv pm D pl 0 rt I) as I0.
+  destruct (negb (me_verified m)).
+  - apply wp_bind. eapply wp_mono; [apply pm_filter_vote_spec; eauto|].
+    intros [rt1 [fc ok]] A. destruct ok; simpl; auto.
+  - destruct (mm_cancelled (me_meta m)); simpl; auto.
+    destruct (mm_err (me_meta m)); simpl; auto.
+    destruct (negb (proposal_fresh (fresh_of pl) x) && negb (negb (proposal_fresh (fresh_of pl) x) && useful_for_cred_history pm (p_rnd pl) x)); simpl; auto.
+    apply wp_bind. eapply wp_mono.
+    + apply (with_round_spec _ pm D pl (vt_rnd x) (vt_per x) _ _ (fun _ _ => True)); eauto. intros rn IR.
+      eapply wp_mono; [apply (rn_store_vote_spec pm D (vt_rnd x)); auto|]. intros [rn' ev] A; auto.
+    + intros [rt1 ev] (A & _).
+      destruct (negb (proposal_fresh (fresh_of pl) x) && useful_for_cred_history pm (p_rnd pl) x); simpl; auto.
+      destruct ev; simpl; auto.
+Qed.
+
+Definition payload_ok (pl : player) (m : mevent) : Prop :=
+  match me_in m with
+  | InPayload pv =>
+      me_verified m = true -> mm_err (me_meta m) = false -> mm_cancelled (me_meta m) = false -> v_rnd pv = p_rnd pl
+  | _ => True
+  end.
+
+Definition pl_accepted (o : plres) : bool :=
+  match o with PLAccepted _ _ | PLCommittable _ _ => true | _ => false end.
+
+Lemma rn_store_payload_present_not_acc : forall pl rn pv, pl_accepted (snd (rn_store_payload_present pl rn pv)) = false.
+Proof.
+  intros pl rn pv. unfold rn_store_payload_present.
+  destruct (aget value_eqb pv (ps_asm (rn_store rn))) as [ea|]; simpl; auto.
+  destruct (as_assembled ea); simpl; auto. destruct (as_filled ea); simpl; auto.
+  destruct (ps_last_relevant _ pv); simpl; auto.
+Qed.
+
+Lemma pm_payload_spec : forall pm D pl rt m pv,
+  RInv pm D rt -> me_in m = InPayload pv -> payload_ok pl m ->
+  wp (pm_payload pm pl rt m pv)
+     (fun '(rt', out) => RInv pm D rt' /\ (pl_accepted out = true -> v_rnd pv = p_rnd pl)).
+Proof.
+  intros pm D pl rt m pv I EM PO. unfold pm_payload. unfold payload_ok in PO; rewrite EM in PO.
+  pose proof (root_update_inv pm D pl 0 rt I) as I0.
+  destruct (me_verified m) eqn:EV; simpl.
+  - destruct (mm_cancelled (me_meta m)) eqn:EC; simpl; [split; auto; discriminate|].
+    destruct (mm_err (me_meta m)) eqn:EE; simpl; [split; auto; discriminate|].
+    eapply wp_mono.
+    + apply (with_round_spec _ pm D pl (p_rnd pl) (p_per pl) _ _ (fun _ _ => True)); eauto. intros rn IR.
+      eapply wp_mono; [apply (rn_store_payload_verified_spec pm D (p_rnd pl)); auto|]. intros [rn' out] A; auto.
+    + intros [rt1 out] (A & _); auto.
+  - assert (PP : forall r p, wp (with_round pm pl r p (root_update pm pl 0 rt)
+                       (fun rn => let '(rn', out) := rn_store_payload_present pl rn pv in Ok (rn', out)))
+                    (fun '(rt', out) => RInv pm D rt' /\ pl_accepted out = false)).
+    { intros r p. eapply wp_mono.
+      - apply (with_round_spec _ pm D pl r p _ _ (fun _ out => pl_accepted out = false)); eauto. intros rn IR.
+        pose proof (rn_store_payload_present_spec pm D r pl rn pv IR) as H.
+        pose proof (rn_store_payload_present_not_acc pl rn pv) as H'.
+        destruct (rn_store_payload_present pl rn pv) as [rn' out]; simpl in *; auto.
+      - intros [rt1 out] (A & rn' & _ & B); auto. }
+    destruct (p_rnd pl =? v_rnd pv).
+    + apply wp_bind. eapply wp_mono; [apply PP|]. intros [rt1 out] [A B]. destruct out; simpl in *; split; auto; discriminate.
+    + apply wp_bind. eapply wp_mono; [apply PP|]. intros [rt1 out] [A B]. destruct out; simpl in *; split; auto; discriminate.
+Qed.
+
+(* ---------- player ---------- *)
+Definition act_ok (pm : params) (D : list vote) (a : action) : Prop :=
+  match a with
+  | AEnsure pl c => good_bundle pm D c /\ ub_step c = s_cert /\ ub_val c = pl /\ ub_rnd c = v_rnd pl
+  | _ => True
+  end.
+Definition acts_ok (pm : params) (D : list vote) (l : list action) : Prop := Forall (act_ok pm D) l.
+Definition hpost (pm : params) (D : list vote) (r : player * router * list action) : Prop :=
+  RInv pm D (snd (fst r)) /\ acts_ok pm D (snd r).
+
+Lemma acts_ok_app : forall pm D a b, acts_ok pm D a -> acts_ok pm D b -> acts_ok pm D (a ++ b).
+Proof. intros; apply Forall_app; auto. Qed.
+Lemma acts_ok_nil : forall pm D, acts_ok pm D [].
+Proof. intros; constructor. Qed.
+Ltac acts_triv := repeat first [apply acts_ok_nil | apply acts_ok_app | (constructor; [exact I|]) | assumption].
+
+Lemma partition_policy_spec : forall pm D pl rt,
+  RInv pm D rt -> wp (partition_policy pm pl rt) (fun '(rt', acts) => RInv pm D rt' /\ acts_ok pm D acts).
+Proof.
+  intros pm D pl rt I. unfold partition_policy.
+  destruct (negb (partitioned pl)); simpl; [split; auto; constructor|].
+  apply wp_bind. eapply wp_mono; [apply d_freshest_spec; eauto|].
+  intros [rt1 fr] (A & _).
+  set (acts0 := match fr with Some th => [ABroadcastBundle (th_b th)] | None => [] end).
+  assert (A0 : acts_ok pm D acts0) by (unfold acts0; destruct fr; repeat constructor).
+  match goal with |- wp (match ?g with _ => _ end) _ => destruct g as [[br bp]|] end; simpl; [|split; auto].
+  apply wp_bind. eapply wp_mono; [apply d_staged_spec; eauto|].
+  intros [rt2 [sv c]] (A2 & _). destruct c; simpl.
+  - split; auto. apply acts_ok_app; auto. repeat constructor.
+  - apply wp_bind. eapply wp_mono; [apply d_pinned_spec; eauto|].
+    intros [rt3 [pv ok]] A3. destruct ok; simpl; split; auto. apply acts_ok_app; auto. repeat constructor.
+Qed.
+
+Lemma issue_soft_vote_spec : forall pm D pl rt d,
+  RInv pm D rt -> wp (issue_soft_vote pm pl rt d) (hpost pm D).
+Proof.
+  intros pm D pl rt d I. unfold issue_soft_vote.
+  apply wp_bind. eapply wp_mono; [apply d_freeze_spec; eauto|]. intros [rt1 frozen] A1.
+  apply wp_bind. eapply wp_mono; [apply d_next_status_spec; eauto|]. intros [rt2 ns] A2.
+  unfold hpost.
+  repeat match goal with |- wp (if ?b then _ else _) _ => destruct b end; simpl; split; auto; repeat constructor.
+Qed.
+
+Lemma issue_next_vote_spec : forall pm D pl rt d,
+  RInv pm D rt -> wp (issue_next_vote pm pl rt d) (hpost pm D).
+Proof.
+  intros pm D pl rt d I. unfold issue_next_vote.
+  apply wp_bind. eapply wp_mono; [apply partition_policy_spec; eauto|]. intros [rt1 acts] (A1 & B1).
+  apply wp_bind. eapply wp_mono; [apply d_staged_spec; eauto|]. intros [rt2 [sv c]] (A2 & _).
+  apply wp_bind.
+  assert (H : wp (if c then Ok (rt2, sv)
+                  else do r4 <- d_next_status pm pl rt2 (p_rnd pl) (sub1 (p_per pl));
+                       (let '(rt3, ns) := r4 in Ok (rt3, if negb (vp_bottom ns) then vp_val ns else bottom)))
+                 (fun '(rt4, _) => RInv pm D rt4)).
+  { destruct c; simpl; auto. apply wp_bind. eapply wp_mono; [apply d_next_status_spec; eauto|].
+    intros [rt3 ns] A3; simpl; auto. }
+  eapply wp_mono; [exact H|]. intros [rt4 prop] A4.
+  destruct (next_vote_ranges pm (p_step pl) d) as [lo up]. simpl. split; simpl; auto.
+  apply acts_ok_app; auto. repeat constructor.
+Qed.
+
+Lemma issue_fast_vote_spec : forall pm D pl rt,
+  RInv pm D rt -> wp (issue_fast_vote pm pl rt) (fun '(rt', acts) => RInv pm D rt' /\ acts_ok pm D acts).
+Proof.
+  intros pm D pl rt I. unfold issue_fast_vote.
+  apply wp_bind. eapply wp_mono; [apply partition_policy_spec; eauto|]. intros [rt1 acts] (A1 & B1).
+  apply wp_bind. eapply wp_mono; [apply d_dump_spec; eauto|]. intros [rt2 e1] A2.
+  apply wp_bind. eapply wp_mono; [apply d_dump_spec; eauto|]. intros [rt3 e2] A3.
+  apply wp_bind. eapply wp_mono; [apply d_dump_spec; eauto|]. intros [rt4 e3] A4.
+  apply wp_bind. eapply wp_mono; [apply d_staged_spec; eauto|]. intros [rt5 [sv c]] (A5 & _).
+  apply wp_bind.
+  assert (H : wp (if c then Ok (rt5, (s_late, sv))
+                  else do r4 <- d_next_status pm pl rt5 (p_rnd pl) (sub1 (p_per pl));
+                       (let '(rt6, ns) := r4 in Ok (rt6, if negb (vp_bottom ns) then (s_redo, vp_val ns) else (s_down, bottom))))
+                 (fun '(rt7, _) => RInv pm D rt7)).
+  { destruct c; simpl; auto. apply wp_bind. eapply wp_mono; [apply d_next_status_spec; eauto|].
+    intros [rt6 ns] A6; simpl; auto. }
+  eapply wp_mono; [exact H|]. intros [rt7 [s prop]] A7. simpl. split; auto.
+  apply acts_ok_app; auto. repeat constructor.
+Qed.
+
+Lemma update_cred_history_spec : forall pm D pl rt,
+  RInv pm D rt -> wp (update_cred_history pm pl rt) (fun rt' => RInv pm D rt').
+Proof.
+  intros pm D pl rt I. unfold update_cred_history.
+  destruct (negb (p_per pl =? 0)); simpl; auto. destruct (p_rnd pl <=? pm_crlag pm); simpl; auto.
+  apply d_read_lowest_spec; auto.
+Qed.
+
+Lemma enter_period_spec : forall pm D pl rt src target,
+  RInv pm D rt -> wp (enter_period pm pl rt src target) (hpost pm D).
+Proof.
+  intros pm D pl rt src target I. unfold enter_period.
+  apply wp_bind. eapply wp_mono; [apply partition_policy_spec; eauto|]. intros [rt1 acts] (A1 & B1).
+  apply wp_bind. eapply wp_mono; [apply pm_threshold_spec; eauto|]. intros [rt2 out] (A2 & _).
+  unfold hpost.
+  destruct out as [[prop auth|prop]|]; simpl.
+  - split; auto. repeat apply acts_ok_app; auto; repeat constructor.
+  - destruct (th_t src); [| |destruct (is_bottom (th_val src))]; simpl; split; auto;
+      repeat apply acts_ok_app; auto; repeat constructor.
+  - destruct (th_t src); [| |destruct (is_bottom (th_val src))]; simpl; split; auto;
+      repeat apply acts_ok_app; auto; repeat constructor.
+Qed.
+
+(* ---------- player.handle ---------- *)
+Definition pev_ok (pm : params) (D : list vote) (pl : player) (e : pevent) : Prop :=
+  match e with
+  | PThresh th => good_thresh pm D th
+  | PMsg m => (forall x, In x (delivered_by m) -> In x D) /\ payload_ok pl m
+  | _ => True
+  end.
+
+Section HandleProofs.
+  Variable pm : params.
+  Variable D : list vote.
+  Variable rec : player -> router -> pevent -> hres.
+  Hypothesis Hrec : forall pl rt e, RInv pm D rt -> pev_ok pm D pl e -> wp (rec pl rt e) (hpost pm D).
+
+  Lemma enter_round_spec : forall pl rt target,
+    RInv pm D rt -> wp (enter_round pm rec pl rt target) (hpost pm D).
+  Proof.
+    intros pl rt target I. unfold enter_round.
+    apply wp_bind. eapply wp_mono; [apply pm_new_round_spec; eauto|]. intros [rt1 e] A1.
+    apply wp_bind. eapply wp_mono; [apply d_freshest_spec; eauto|]. intros [rt2 fr] (A2 & B2).
+    set (acts1 := match e with PLPipelined _ per pinned prop _ => _ | _ => _ end).
+    assert (AO : acts_ok pm D acts1) by (unfold acts1; destruct e; repeat constructor).
+    destruct fr as [th|]; simpl.
+    - apply wp_bind. eapply wp_mono; [apply Hrec; [exact A2 | simpl; apply (B2 th); auto]|].
+      intros [[pl2 rt3] a4] [H1 H2]; simpl in *. split; simpl; auto. apply acts_ok_app; auto.
+    - split; simpl; auto.
+  Qed.
+
+  Lemma tkind_cert_step : forall s, tkind_of_step s = TCert -> s = s_cert.
+  Proof.
+    intros s H. unfold tkind_of_step in H. destruct (s =? s_soft); [discriminate|].
+    destruct (s =? s_cert) eqn:E; [apply N.eqb_eq in E; auto | discriminate].
+  Qed.
+
+  Lemma handle_threshold_spec : forall pl rt th,
+    RInv pm D rt -> good_thresh pm D th -> wp (handle_threshold pm rec pl rt th) (hpost pm D).
+  Proof.
+    intros pl rt th I (GB & GK & GV & GT). unfold handle_threshold.
+    destruct (th_t th) eqn:ET.
+    - (* soft *)
+      destruct (th_per th <? p_per pl); [simpl; split; simpl; auto; constructor|].
+      destruct (p_per pl <? th_per th); [apply enter_period_spec; auto|].
+      apply wp_bind. eapply wp_mono; [apply pm_threshold_spec; eauto|]. intros [rt1 out] (A1 & _).
+      destruct out as [[prop auth|prop]|]; simpl; try (split; simpl; auto; constructor).
+      destruct (p_step pl <=? s_cert); simpl; split; simpl; auto; repeat constructor.
+    - (* cert *)
+      apply wp_bind. eapply wp_mono; [apply pm_threshold_spec; eauto|]. intros [rt1 out] (A1 & ST). rewrite ET in ST.
+      apply wp_bind. eapply wp_mono.
+      + apply wp_and; [apply (d_staged_spec pm D); exact A1 | apply d_staged_value; exact ST].
+      + intros [rt2 [sv c]] ((A2 & RC) & SV). subst sv.
+        destruct c; simpl.
+        * apply wp_bind. eapply wp_mono; [apply update_cred_history_spec; eauto|]. intros rt3 A3.
+          apply wp_bind. eapply wp_mono; [apply enter_round_spec; eauto|].
+          intros [[pl2 rt4] as_] [H1 H2]; simpl in *. split; simpl; auto.
+          constructor; auto. simpl.
+          assert (ES : ub_step (th_b th) = s_cert).
+          { inversion GK as [[K1 K2 K3]]. rewrite K3. apply tkind_cert_step; symmetry; exact GT. }
+          inversion GK as [[K1 K2 K3]]. split; [exact GB|]. split; [exact ES|]. split; [exact GV|].
+          rewrite (RC eq_refl). exact K1.
+        * destruct (p_per pl <? th_per th).
+          -- apply wp_bind. eapply wp_mono; [apply enter_period_spec; eauto|].
+             intros [[pl2 rt3] as_] [H1 H2]; simpl in *. split; simpl; auto. constructor; simpl; auto.
+          -- simpl. split; simpl; auto. repeat constructor.
+    - (* next *)
+      destruct (th_per th <? p_per pl); [simpl; split; simpl; auto; constructor|].
+      apply enter_period_spec; auto.
+  Qed.
+
+  Lemma handle_proposal_vote_spec : forall pl rt m x,
+    RInv pm D rt -> wp (handle_proposal_vote pm rec pl rt m x) (hpost pm D).
+  Proof.
+    intros pl rt m x I. unfold handle_proposal_vote.
+    apply wp_bind. eapply wp_mono; [apply pm_vote_spec; eauto|]. intros [rt1 ef] A1.
+    apply wp_bind.
+    match goal with |- wp ?body _ =>
+      assert (HB : wp body (fun '(_, acts, _) => acts_ok pm D acts)) end.
+    { cbv zeta. destruct ef as [|note| |prop ok]; simpl; split_ifs;
+        first [exact Logic.I | (unfold acts_ok; repeat constructor)]. }
+    eapply wp_mono; [exact HB|]. intros [[pl1 acts] done] AO.
+    match goal with |- wp (let '(pl2, tail) := ?pt in _) _ => destruct pt as [pl2 tail] end.
+    destruct tail as [t|]; [|split; simpl; auto].
+    destruct done; [|split; simpl; auto].
+    apply wp_bind. eapply wp_mono.
+    - apply Hrec; [exact A1|]. simpl. split; [intros y Hy; simpl in Hy; contradiction|].
+      unfold payload_ok; simpl. intro C; discriminate.
+    - intros [[pl3 rt2] suffix] [H1 H2]; simpl in *. split; simpl; auto. apply acts_ok_app; auto.
+  Qed.
+
+  Lemma value_eqb_true : forall a b, value_eqb a b = true -> a = b.
+  Proof. intros; apply value_eqb_eq; auto. Qed.
+
+  Ltac hfin := simpl; first [exact Logic.I | apply wp_panic
+                             | (split; simpl; [assumption | unfold acts_ok; repeat constructor; assumption])].
+
+  Lemma ensure_site2 : forall pl th pv,
+    good_thresh pm D th -> th_rnd th = p_rnd pl -> th_t th = TCert -> th_val th = pv -> v_rnd pv = p_rnd pl ->
+    act_ok pm D (AEnsure pv (th_b th)).
+  Proof.
+    intros pl th pv (GB & GK & GV & GT) GR ET EV PR. simpl.
+    inversion GK as [[K1 K2 K3]]. split; [exact GB|]. split; [|split].
+    - rewrite K3. apply tkind_cert_step. rewrite <- GT. exact ET.
+    - congruence.
+    - congruence.
+  Qed.
+
+  Lemma handle_message_spec : forall pl rt m,
+    RInv pm D rt -> (forall x, In x (delivered_by m) -> In x D) -> payload_ok pl m ->
+    wp (handle_message pm rec pl rt m) (hpost pm D).
+  Proof.
+    intros pl rt m I S PO. unfold handle_message.
+    destruct (me_in m) as [x|b|pv] eqn:EM.
+    - destruct (vt_step x =? s_propose); [apply handle_proposal_vote_spec; auto|].
+      apply wp_bind. eapply wp_mono; [apply va_handle_spec; eauto|]. intros [rt1 ef] (A1 & G1).
+      destruct ef as [| | |th]; simpl; try (hfin; fail).
+      + destruct (negb (me_verified m)); hfin.
+      + destruct (negb (me_verified m)); [hfin|].
+        apply wp_bind. eapply wp_mono; [apply Hrec; [exact A1 | simpl; inversion G1; auto]|].
+        intros [[pl2 rt2] a1] [H1 H2]; simpl in *. split; simpl; auto. constructor; simpl; auto.
+    - apply wp_bind. eapply wp_mono; [apply va_handle_spec; eauto|]. intros [rt1 ef] (A1 & G1).
+      destruct ef as [| | |th]; simpl; try (hfin; fail).
+      + destruct (negb (me_verified m)); hfin.
+      + destruct (negb (me_verified m)); [hfin|].
+        apply wp_bind. eapply wp_mono; [apply Hrec; [exact A1 | simpl; inversion G1; auto]|].
+        intros [[pl2 rt2] a1] [H1 H2]; simpl in *. split; simpl; auto. constructor; simpl; auto.
+    - apply wp_bind. eapply wp_mono; [apply pm_payload_spec; eauto|]. intros [rt1 ef] (A1 & PA).
+      destruct ef as [| | |rnd per pinned prop auth|prop auth|prop auth]; try (hfin; fail).
+      + cbv zeta. simpl. destruct (mm_hnil (me_meta m)); hfin.
+      + cbv zeta. destruct (rnd =? p_rnd pl); [hfin|]. simpl. destruct (mm_hnil (me_meta m)); hfin.
+      + (* accepted *)
+        cbv zeta. simpl.
+        apply wp_bind. eapply wp_mono; [apply d_freshest_spec; eauto|]. intros [rt2 fr] (A2 & B2).
+        set (acts1 := if mm_hnil (me_meta m) then _ else _).
+        assert (AO : acts_ok pm D acts1) by (unfold acts1, acts_ok; destruct (mm_hnil (me_meta m)); repeat constructor).
+        destruct fr as [th|]; [|hfin].
+        destruct (tkind_eqb (th_t th) TCert && value_eqb (th_val th) pv) eqn:EC; [|hfin].
+        apply andb_true_iff in EC. destruct EC as [EC1 EC2]. apply value_eqb_true in EC2.
+        destruct (B2 th eq_refl) as (GT & GR).
+        apply wp_bind. eapply wp_mono; [apply update_cred_history_spec; eauto|]. intros rt3 A3.
+        apply wp_bind. eapply wp_mono; [apply enter_round_spec; eauto|].
+        intros [[pl2 rt4] as_] [H1 H2]; simpl in *. split; simpl; auto.
+        apply acts_ok_app; auto. constructor; auto.
+        eapply ensure_site2; eauto. destruct (th_t th); simpl in EC1; try discriminate; auto.
+      + (* committable *)
+        cbv zeta. simpl.
+        apply wp_bind. eapply wp_mono; [apply d_freshest_spec; eauto|]. intros [rt2 fr] (A2 & B2).
+        set (acts1 := if mm_hnil (me_meta m) then _ else _).
+        assert (AO : acts_ok pm D acts1) by (unfold acts1, acts_ok; destruct (mm_hnil (me_meta m)); repeat constructor).
+        assert (FIN : wp (if p_step pl <=? s_cert
+                          then Ok (pl, rt2, acts1 ++ [AAttest (p_rnd pl) (p_per pl) s_cert prop])
+                          else Ok (pl, rt2, acts1)) (hpost pm D)).
+        { destruct (p_step pl <=? s_cert); simpl; split; simpl; auto. apply acts_ok_app; auto. unfold acts_ok; repeat constructor. }
+        destruct fr as [th|]; [|exact FIN].
+        destruct (tkind_eqb (th_t th) TCert && value_eqb (th_val th) pv) eqn:EC; [|exact FIN].
+        apply andb_true_iff in EC. destruct EC as [EC1 EC2]. apply value_eqb_true in EC2.
+        destruct (B2 th eq_refl) as (GT & GR).
+        apply wp_bind. eapply wp_mono; [apply update_cred_history_spec; eauto|]. intros rt3 A3.
+        apply wp_bind. eapply wp_mono; [apply enter_round_spec; eauto|].
+        intros [[pl2 rt4] as_] [H1 H2]; simpl in *. split; simpl; auto.
+        apply acts_ok_app; auto. constructor; auto.
+        eapply ensure_site2; eauto. destruct (th_t th); simpl in EC1; try discriminate; auto.
+  Qed.
+
+  Lemma handle_fast_timeout_spec : forall pl rt en bad,
+    RInv pm D rt -> wp (handle_fast_timeout pm pl rt en bad) (hpost pm D).
+  Proof.
+    intros pl rt en bad I. unfold handle_fast_timeout.
+    destruct bad; [hfin|]. destruct (pm_frlambda pm =? 0); [hfin|].
+    destruct (p_frd pl =? 0); [hfin|].
+    apply wp_bind. eapply wp_mono; [apply issue_fast_vote_spec; eauto|].
+    intros [rt1 acts] (A & B); simpl. split; simpl; auto.
+  Qed.
+
+  Lemma wp_hpost_step : forall (x : hres) (f : player -> player),
+    wp x (hpost pm D) ->
+    wp (do r <- x; (let '(pl1, rt1, acts) := r in Ok (f pl1, rt1, acts))) (hpost pm D).
+  Proof.
+    intros x f H. apply wp_bind. eapply wp_mono; [exact H|]. intros [[pl1 rt1] acts] [A B]; simpl in *. split; auto.
+  Qed.
+
+  Lemma handle_timeout_spec : forall pl rt en bad,
+    RInv pm D rt -> wp (handle_timeout pm pl rt en bad) (hpost pm D).
+  Proof.
+    intros pl rt en bad I. unfold handle_timeout.
+    destruct (p_step pl =? s_soft).
+    - apply wp_hpost_step. apply issue_soft_vote_spec; auto.
+    - destruct (p_step pl =? s_cert); [apply issue_next_vote_spec; auto|].
+      destruct (p_nap pl); [apply issue_next_vote_spec; auto|].
+      destruct (next_vote_ranges pm _ _) as [lo up].
+      destruct (up - lo =? 0); hfin.
+  Qed.
+
+  Lemma handle_body_spec : forall pl rt e,
+    RInv pm D rt -> pev_ok pm D pl e -> wp (handle_body pm rec pl rt e) (hpost pm D).
+  Proof.
+    intros pl rt e I PE. destruct e as [m|th|fast en bad|r|r p s err]; simpl.
+    - destruct PE. apply handle_message_spec; auto.
+    - apply handle_threshold_spec; auto.
+    - destruct fast; [apply handle_fast_timeout_spec | apply handle_timeout_spec]; auto.
+    - apply enter_round_spec; auto.
+    - hfin.
+  Qed.
+End HandleProofs.
+
+Lemma p_handle_spec : forall pm D fuel pl rt e,
+  RInv pm D rt -> pev_ok pm D pl e -> wp (p_handle fuel pm pl rt e) (hpost pm D).
+Proof.
+  induction fuel as [|f IH]; intros pl rt e I PE; simpl; [exact Logic.I|].
+  apply handle_body_spec; auto.
+Qed.
+
+(* ---------- submitTop and whole runs ---------- *)
+Definition ev_delivered (e : ext_event) : list vote :=
+  match e with EvMsg m => delivered_by m | _ => [] end.
+Definition ev_payload_ok (pl : player) (e : ext_event) : Prop :=
+  match e with EvMsg m => payload_ok pl m | _ => True end.
+Definition delivered (es : list ext_event) : list vote := flat_map ev_delivered es.
+
+Lemma step_spec : forall pm D st e,
+  RInv pm D (s_rt st) -> (forall x, In x (ev_delivered e) -> In x D) -> ev_payload_ok (s_pl st) e ->
+  wp (step pm st e) (fun '(st', acts) => RInv pm D (s_rt st') /\ acts_ok pm D acts).
+Proof.
+  intros pm D st e I S PO. unfold step. apply wp_bind. eapply wp_mono.
+  - apply p_handle_spec; [apply root_update_inv; exact I|].
+    destruct e; simpl in *; auto.
+  - intros [[pl rt'] acts] [A B]; simpl in *; auto.
+Qed.
+
+(* payloadVerified events carry a payload of the player's round (the cryptoVerifier validates a
+   payload for the round of the request: proposal.validate) *)
+Fixpoint trace_ok (pm : params) (st : state) (es : list ext_event) : Prop :=
+  match es with
+  | [] => True
+  | e :: es' =>
+      ev_payload_ok (s_pl st) e /\
+      match step pm st e with Ok (st', _) => trace_ok pm st' es' | _ => True end
+  end.
+
+Lemma run_spec : forall pm es D st,
+  RInv pm D (s_rt st) -> trace_ok pm st es ->
+  forall i acts st', nth_error (fst (run pm st es)) i = Some (acts, st') ->
+    acts_ok pm (D ++ delivered (firstn (S i) es)) acts.
+Proof.
+  induction es as [|e es IH]; intros D st I T i acts st' H; simpl in H.
+  - destruct i; discriminate.
+  - destruct T as [PO T].
+    set (D1 := D ++ ev_delivered e).
+    assert (I1 : RInv pm D1 (s_rt st)) by (eapply RInv_mono; [|exact I]; intros x Hx; apply in_or_app; auto).
+    pose proof (step_spec pm D1 st e I1 (fun x Hx => in_or_app _ _ _ (or_intror Hx)) PO) as SP.
+    destruct (step pm st e) as [[st1 acts1]| |] eqn:ES; simpl in H; try (destruct i; discriminate).
+    destruct (run pm st1 es) as [l o] eqn:ER. simpl in H. destruct SP as [A B]; simpl in A, B.
+    destruct i; simpl in H.
+    + inversion H; subst. simpl. unfold delivered; simpl. rewrite app_nil_r. exact B.
+    + pose proof (IH D1 st1 A T i acts st') as H2. rewrite ER in H2. specialize (H2 H).
+      unfold delivered in *. simpl. unfold D1 in H2. rewrite <- app_assoc in H2. exact H2.
+Qed.
+
+Lemma RInv_init : forall pm D r0, RInv pm D (s_rt (init pm r0)).
+Proof. intros pm D r0 r rn H; simpl in H; contradiction. Qed.
+
+Lemma reaches_cert : forall pm w, reaches pm s_cert w = true <-> pm_cert pm <= w.
+Proof. intros; unfold reaches; simpl. apply N.leb_le. Qed.
+
+(* the property: every ensureAction emitted along ANY event sequence carries a cert-step bundle for
+   the payload's value and round, of pairwise distinct senders, made of votes that were delivered as
+   verified for exactly that (round, period, cert, value) -- or of equivocation pairs backed by two
+   delivered votes of one sender for different values --, whose total weight reaches the cert
+   threshold *)
+Theorem ensure_cert_is_cert_bundle_proof : forall pm r0 es,
+  trace_ok pm (init pm r0) es ->
+  forall i acts st' pl c,
+    nth_error (fst (run pm (init pm r0) es)) i = Some (acts, st') -> In (AEnsure pl c) acts ->
+    let Dl := delivered (firstn (S i) es) in
+    ub_step c = s_cert /\ ub_val c = pl /\ ub_rnd c = v_rnd pl /\
+    NoDup (map vt_snd (ub_votes c) ++ map eq_snd (ub_eqs c)) /\
+    (forall x, In x (ub_votes c) -> In x Dl /\ key_of x = (ub_rnd c, ub_per c, s_cert) /\ vt_val x = pl) /\
+    (forall e, In e (ub_eqs c) -> eq_ok Dl e /\ ekey_of e = (ub_rnd c, ub_per c, s_cert)) /\
+    pm_cert pm <= bundle_weight c.
+Proof.
+  intros pm r0 es T i acts st' pl c H HI Dl.
+  pose proof (run_spec pm es [] (init pm r0) (RInv_init pm [] r0) T i acts st' H) as AO. simpl in AO.
+  unfold acts_ok in AO. rewrite Forall_forall in AO. specialize (AO _ HI). simpl in AO.
+  destruct AO as ([GV GE GN GW] & ES & EV & ER). fold Dl in GV, GE.
+  unfold bkey_of in *. rewrite ES in *.
+  repeat split; auto.
+  - apply GV; auto.
+  - destruct (GV x H0) as (_ & K & _). exact K.
+  - destruct (GV x H0) as (_ & _ & K). congruence.
+  - apply GE; auto.
+  - apply GE; auto.
+  - apply reaches_cert; auto.
 Qed.
